@@ -235,6 +235,63 @@ def is_error_ret(e):
     return False
 
 
+def _if_signatures(f):
+    """id(if node) -> (local id, negated) when the condition is a plain (possibly negated) local that is assigned once:
+    two `if`s on the same such local take the same branch, their branches are the same control context."""
+    out = {}
+    inits = let_inits(f)
+    for x in hir_walk(f.hir["body"]):
+        if x.get("k") == "if":
+            c = strip_casts(x["cond"])
+            neg = False
+            while c is not None and c.get("k") == "un" and c["op"] == "Not":
+                neg = not neg
+                c = strip_casts(c["e"])
+            lid = hir_local_id(c) if c is not None else None
+            if lid is not None and len(inits.get(lid, [])) == 1:
+                out[id(x)] = (lid, neg)
+    return out
+
+
+def canonical_ancestors(f, anc):
+    """replace ('then'|'else', id(if)) by ('cond', local, truth) for conditions on single-assignment locals"""
+    sig = getattr(f, "_if_sigs", None)
+    if sig is None:
+        sig = _if_signatures(f)
+        f._if_sigs = sig
+    out = []
+    for k, nid in anc:
+        if k in ("then", "else") and nid in sig:
+            lid, neg = sig[nid]
+            out.append(("cond", (lid, (k == "then") != neg)))
+        else:
+            out.append((k, nid))
+    return tuple(out)
+
+
+def placeholder_on_every_path_to_patch(f, placeholder_call, patch_call):
+    """The converse of patch_unconditional_after: every control construct that encloses the placeholder write but not the
+    patch must be a closure (the callbacks handed to encode_if_then are invoked unconditionally, checked separately).
+    A placeholder written under an `if`/match arm/loop that the patch is not under means the patch also runs when the
+    placeholder was NOT written - with a stale or initial index."""
+    anc = control_ancestors(f.hir["body"])
+    pa = anc.get(id(patch_call))
+    oa = anc.get(id(placeholder_call))
+    if pa is None or oa is None:
+        return None
+    pa = canonical_ancestors(f, pa)
+    oa = canonical_ancestors(f, oa)
+    # conditions on single-assignment locals hold wherever they were established: order does not matter
+    pconds = set(e for e in pa if e[0] == "cond")
+    oa = tuple(e for e in oa if not (e[0] == "cond" and e in pconds))
+    pa = tuple(e for e in pa if e[0] != "cond")
+    common = 0
+    while common < len(pa) and common < len(oa) and pa[common] == oa[common]:
+        common += 1
+    extra = [k for k, _i in oa[common:] if k != "closure"]
+    return extra
+
+
 def patch_unconditional_after(f, placeholder_call, patch_call):
     anc = control_ancestors(f.hir["body"])
     pa = anc.get(id(patch_call))
@@ -242,8 +299,16 @@ def patch_unconditional_after(f, placeholder_call, patch_call):
     if pa is None or oa is None:
         return False
     # every control construct enclosing the patch must enclose the placeholder too
-    if pa != oa[:len(pa)]:
+    cpa = canonical_ancestors(f, pa)
+    coa = canonical_ancestors(f, oa)
+    oconds = set(e for e in coa if e[0] == "cond")
+    cpa2 = tuple(e for e in cpa if not (e[0] == "cond" and e in oconds))
+    coa2 = tuple(e for e in coa if e[0] != "cond")
+    if cpa2 != coa2[:len(cpa2)]:
         return False
+    if any(e[0] == "cond" for e in cpa):
+        # the early-return scan below works on raw ancestors; with condition contexts we only accept the simple case
+        pa = tuple(e for e, c in zip(pa, cpa) if c[0] != "cond")
     # no successful early return between them (in source order) inside the patch's enclosing construct
     lo, hi = placeholder_call["ln"], patch_call["ln"]
     for x in hir_walk(f.hir["body"]):
